@@ -2,6 +2,8 @@
 
 package mldsa
 
+import "golang.org/x/crypto/sha3"
+
 // Strictness probes: signatures made with the real secret key that satisfy
 // every rule of verification except one. A verifier that has dropped or
 // loosened that one rule accepts them, the specification rejects them. (An
@@ -148,5 +150,29 @@ func (p *Params) HintProbes(sig []byte, pick func(n int) int) []Probe {
 		mk("hint-sop-decr", func(y []byte) { y[om+i] = byte(start[i] - 1 - pick(start[i])) })
 	}
 	mk("hint-sop-big", func(y []byte) { y[om+p.K-1] = byte(om + 1 + pick(255-om)) })
+	return out
+}
+
+// RejNTTCandidates returns, in order, the 23-bit candidates that
+// RejNTTPoly(seed) examines until it has accepted 256 of them. Used to search
+// for inputs that put a candidate exactly on the rejection boundary (q is
+// rejected, q-1 accepted), an event of probability 2^-22 per candidate that
+// random seeds do not reach.
+func RejNTTCandidates(seed []byte) []int64 {
+	h := sha3.NewShake128()
+	_, _ = h.Write(seed)
+	out := make([]int64, 0, 280)
+	var buf [168]byte
+	acc := 0
+	for acc < N {
+		_, _ = h.Read(buf[:])
+		for i := 0; i+3 <= len(buf) && acc < N; i += 3 {
+			z := int64(buf[i+2]&127)<<16 | int64(buf[i+1])<<8 | int64(buf[i])
+			out = append(out, z)
+			if z < Q {
+				acc++
+			}
+		}
+	}
 	return out
 }
